@@ -152,6 +152,14 @@ class GeminiClientProtocol(asyncio.Protocol):
         if not (10 <= self.status < 70):
             self._set_error(ValueError(f"Status code out of range: {self.status}"))
 
+    def _complete_without_body(self) -> bool:
+        """True once the header of a non-success response has been parsed."""
+        return (
+            self.header_received
+            and self.status is not None
+            and not (20 <= self.status < 30)
+        )
+
     def eof_received(self) -> bool:
         """Called when the server closes its write side (graceful shutdown).
 
@@ -173,8 +181,12 @@ class GeminiClientProtocol(asyncio.Protocol):
         if self.response_future.done():
             return
 
-        # If there was a connection error, set the exception
-        if exc:
+        # If there was a connection error, set the exception - unless a complete
+        # non-success response has already arrived: we hung up ourselves right
+        # after its header, and an error while the connection is torn down
+        # (e.g. the server still sending after our close_notify) must not
+        # replace the response
+        if exc and not self._complete_without_body():
             self.response_future.set_exception(exc)
             return
 
@@ -400,6 +412,14 @@ class TitanClientProtocol(asyncio.Protocol):
         if not (10 <= self.status < 70):
             self._set_error(ValueError(f"Status code out of range: {self.status}"))
 
+    def _complete_without_body(self) -> bool:
+        """True once the header of a non-success response has been parsed."""
+        return (
+            self.header_received
+            and self.status is not None
+            and not (20 <= self.status < 30)
+        )
+
     def eof_received(self) -> bool:
         """Called when the server closes its write side.
 
@@ -419,7 +439,8 @@ class TitanClientProtocol(asyncio.Protocol):
         if self.response_future.done():
             return
 
-        if exc:
+        # (see GeminiClientProtocol.connection_lost)
+        if exc and not self._complete_without_body():
             self.response_future.set_exception(exc)
             return
 
